@@ -64,10 +64,22 @@ def program(case):
         "disp_obj": case["disp_obj"], "body": inner_body,
     }  # fmt: skip
     tail = {"k": "probe", "lookups": [], "fp": True}
+    pre = []
+    if case.get("rival"):
+        # an unrelated scope with its own disposables entering and living in ANOTHER task at the same time: the two scopes'
+        # bookkeeping must not mix
+        ok = {"b": "ok"}
+        rival_scope = {
+            "k": "scope", "mode": "async", "name": "rival", "state": [], "disp_obj": False,
+            "disp": [{"enter": {"b": "suspend_ok", "t": 0.375}, "yields": None, "exit": ok, "as": "list"},
+                     {"enter": ok, "yields": None, "exit": ok, "as": "list"}],
+            "body": [{"k": "sleep", "t": 1.25}],
+        }  # fmt: skip
+        pre = [{"k": "spawn", "via": "asyncio", "body": [{"k": "sleep", "t": case["rival"]}, rival_scope]}]
     if case["outer"]:
-        return {"body": [{"k": "scope", "mode": "async", "name": "outer", "state": [{"type": "A", "v": 9}, {"type": "B", "v": 9}],
-                          "disp": None, "body": [inner, tail]}]}  # fmt: skip
-    return {"body": [inner, tail]}
+        return {"body": [*pre, {"k": "scope", "mode": "async", "name": "outer", "state": [{"type": "A", "v": 9}, {"type": "B", "v": 9}],
+                                "disp": None, "body": [inner, tail]}]}  # fmt: skip
+    return {"body": [*pre, inner, tail]}
 
 
 def contains(exc, target, seen=None) -> bool:
@@ -86,8 +98,22 @@ def contains(exc, target, seen=None) -> bool:
 
 
 def judge(case, run, res, out: Outcome, inject):
-    path = (0, 0) if case["outer"] else (0,)
+    first = 1 if case.get("rival") else 0
+    path = (first, 0) if case["outer"] else (first,)
     n = len(case["disp"])
+    if case.get("rival"):
+        rpath = (0, "t", 1)
+        for j in (0, 1):
+            rex = [e for e in run.log if e["ev"] == "d_exit_call" and tuple(e["path"]) == rpath and e.get("j") == j]
+            if len(rex) > 1:
+                out.violate("exit", "C08.exit/disposable-of-another-scope-exited-twice", f"rival disposable {j}: {len(rex)} exits; inject={inject}")
+            for e in rex:
+                if e["exc"] is not None and not isinstance(e["exc"], asyncio.CancelledError):
+                    out.violate("exit", "C08.exit/disposable-of-another-scope-exited-with-foreign-error", f"rival disposable {j} received {e['exc']!r}; inject={inject}")
+            ren = [e for e in run.log if e["ev"] == "d_enter_done" and tuple(e["path"]) == rpath and e.get("j") == j]
+            rbody = [e for e in run.log if e["ev"] in ("body_end",) and tuple(e["path"]) == rpath]
+            if ren and rex and rbody and rex[0]["it"] < rbody[0]["it"]:
+                out.violate("exit", "C08.exit/disposable-of-another-scope-exited-while-its-body-runs", f"rival disposable {j}; inject={inject}")
     tag = "cancel" if inject is not None else case["body"]
     log = [e for e in run.log if tuple(e["path"])[: len(path)] == path]
     ev = lambda kind, j=None: [e for e in log if e["ev"] == kind and tuple(e["path"]) == path and (j is None or e.get("j") == j)]  # noqa: E731
@@ -286,12 +312,14 @@ def _disp_strategy():
 
 def strategy(tier):
     return st.builds(
-        lambda outer, state, disp, dobj, body: {"outer": outer, "state": state, "disp": disp, "disp_obj": dobj, "body": body, "inject": None},
+        lambda outer, state, disp, dobj, body, rival: {"outer": outer, "state": state, "disp": disp, "disp_obj": dobj, "body": body, "inject": None, "rival": rival},
         st.booleans(),
         st.lists(P.sv_strategy(), max_size=2),
         st.lists(_disp_strategy(), min_size=0, max_size=4),
         st.booleans(),
         st.sampled_from(["return", "raise", "raise", "base", "cancel", "cancel"]),
+        # delay after which an unrelated scope (own disposables, another task) starts entering; None = no such scope
+        st.sampled_from([None, None, None, 0.125, 0.25, 0.625]),
     )
 
 
